@@ -91,6 +91,12 @@ def gen_case(rng, name, rel, directed=None):
   if rel == 'orthogonal' and rng.random() < 0.5:
     d = int(rng.integers(4, 7))
   tr = gen.training(rng, name, d=d, sep=2.5)
+  if directed == 'many_points':
+    # a LARGE pair set (more than a thousand distinct points; ITML's default bounds are percentiles over all of them)
+    d = 3
+    Xm, ym = gen.dataset(rng, d=d, n_classes=2, per_class=650, bits=9, sep=2.5)
+    idxm, labm = gen.pairs_from(rng, Xm, ym, 680)
+    tr = dict(X=Xm, y=ym, kind='pairs', idx=idxm, labels=labm, fit_args=(Xm[idxm], labm), fit_kwargs={})
   if name == 'LFDA' and (directed == 'singleton' or rng.random() < 0.4):
     # a class with a SINGLE member (any class layout is in the quantifier)
     y0 = np.asarray(tr['y'])
@@ -185,6 +191,8 @@ def run(ctx):
     rs.append(dict(est='LFDA', rel=rel, n=n, directed='singleton', seed=int(rng.integers(1 << 30))))
   for name in ('RCA', 'Covariance'):
     rs.append(dict(est=name, rel='scaling', n=n, directed='tiny_scale', seed=int(rng.integers(1 << 30))))
+  for rel in ('orthogonal', 'translation', 'swap'):
+    rs.append(dict(est='ITML', rel=rel, n=1 if ctx.quick else 6, directed='many_points', seed=int(rng.integers(1 << 30))))
   ctx.rule = ('every (relation, estimator) combination the statement lists: translation x 17, within-tuple swap x '
               '{ITML,MMC,SDML,LSML}, sample permutation x {Covariance,RCA}, scaling x {Covariance,RCA}, orthogonal maps '
               '(signed permutations, Hadamard blocks) x {Covariance,RCA,LFDA,LMNN(identity),ITML,LSML,MMC}; %d random '
